@@ -205,6 +205,10 @@ def gen() -> None:
 
 S, L, kvs, O, OL, OQ, exn_name = c08.S, c08.L, c08.kvs, c08.O, c08.OL, c08.OQ, c08.exn_name
 BADS = ["a\rb", "a\nb", "a\r\nb", "\n"]
+Lazy = c08.Lazy
+# values that are not str instances: Headers stores str(value) after the same check
+DIRTY = BADS + [Lazy(b) for b in BADS[:3]] + [ValueError("boom\r\nX: 1")]
+CLEAN = ["ok", 7, Lazy("lazy text"), b"by\ntes", ValueError("boom"), 2.5]
 
 
 class Closable:
@@ -368,7 +372,8 @@ def serve_case(chk, rng, shape, status, method, preset_cl, passthrough, ncb, pre
     try:
         out, st, hdrs = with_timeout(go, 10)
     except Exception as e:  # noqa: BLE001
-        if oracle:
+        if oracle and not (location is not None and isinstance(e, UnicodeError)):
+            # (a Location that cannot be converted to a URI may be refused; it must not get through non-ASCII)
             chk.fail("wsgi-response-raises", f"get_wsgi_response / iteration raised {e!r}", case)
         return None, "raised"
     wrapped = counter.closed if counter is not None else None
@@ -427,6 +432,13 @@ def serve_case(chk, rng, shape, status, method, preset_cl, passthrough, ncb, pre
     return line, obs
 
 
+LONG_LABEL = "bücher" * 12          # one DNS label far over the 63 octet IDNA limit
+LOCATIONS = ["/x", "/a b", "http://example.com/a?b=c", "/é", "http://bücher.example/ü?ä=ö", "rel/path", "//host/p", "?q=1", "/%7Euser",
+             "relative/päth?q=ü#frägment", "//☃.net/snow", "https://üser:päss@bücher.example:8443/x",
+             f"http://{LONG_LABEL}.example/next", f"//{LONG_LABEL}.example/next", "https://bücher..example/next",
+             f"https://user@{LONG_LABEL}.example:8443/next?x=1#top", "http://é" + "a" * 70 + ".example/", "http://[::1]:80/ü"]
+
+
 def hygiene_ops(v):
     ops = []
     for k in ("a", "X-New"):
@@ -445,7 +457,7 @@ def entry_points_oracle(chk):
     import werkzeug.datastructures as ds
     from werkzeug.wrappers import Response
     n = 0
-    for bad in BADS:
+    for bad in DIRTY:
         tries = {
             "Headers([(k, bad)])": lambda: ds.Headers([("a", bad)]),
             "Headers({k: bad})": lambda: ds.Headers({"a": bad}),
@@ -477,15 +489,17 @@ def entry_points_oracle(chk):
             except ValueError:
                 continue
             except Exception as e:  # noqa: BLE001
-                chk.fail("header-value-newline", f"{name} with {bad!r} raised {type(e).__name__} instead of ValueError", {"kind": "entry", "entry": name, "value": bad})
+                if not isinstance(bad, str):
+                    continue        # an argument that must be a str refused a non-str value in its own way: nothing was stored
+                chk.fail("header-value-newline", f"{name} with {bad!r} raised {type(e).__name__} instead of ValueError", {"kind": "entry", "entry": name, "value": repr(bad)})
                 continue
-            chk.fail("header-value-newline", f"{name} accepted a value containing CR/LF: {bad!r}", {"kind": "entry", "entry": name, "value": bad})
+            chk.fail("header-value-newline", f"{name} accepted a value whose string form contains CR/LF: {bad!r}", {"kind": "entry", "entry": name, "value": repr(bad)})
         # bytes values are stored as their repr: no raw newline either
         h = ds.Headers()
-        h.add("a", bad.encode())
+        h.add("a", bad.encode() if isinstance(bad, str) else str(bad).encode())
         if any("\r" in v or "\n" in v for _, v in h):
-            chk.fail("header-value-newline", "a bytes value stored a raw newline", {"kind": "entry", "entry": "bytes", "value": bad})
-        chk.case(("entry", bad), nontrivial=True)
+            chk.fail("header-value-newline", "a bytes value stored a raw newline", {"kind": "entry", "entry": "bytes", "value": repr(bad)})
+        chk.case(("entry", repr(bad)), nontrivial=True)
     chk.count("entry points(oracle only)", n)
 
 
@@ -514,13 +528,14 @@ def run(chk: Check) -> None:
         if c["kind"] == "hd":
             c08.run_case(R8, c)
     states = [None, ("p", (("a", "1"),)), ("p", (("a", "1"), ("A", "2"), ("b", "3")))]
-    for v in ["ok"] + BADS:
+    for v in CLEAN + DIRTY:
         for st in states:
             for o in hygiene_ops(v):
                 R8.hd(st, [o])
         for arg in (("p", (("a", "1"), ("b", v))), ("d", {"a": v}), ("d", {"a": ["1", v]}), ("h", (("a", "1"),)), ("m", {"a": ["1"]})):
             R8.hd(arg, [])
-    mixed = hygiene_ops("ok")[:6] + hygiene_ops("a\nb")[:9] + hygiene_ops("a\rb")[9:] + [("delkey", "a"), ("pop",), ("clear",)]
+    mixed = (hygiene_ops("ok")[:6] + hygiene_ops("a\nb")[:9] + hygiene_ops("a\rb")[9:] + hygiene_ops(Lazy("x\ny"))[:4]
+             + hygiene_ops(Lazy("fine"))[4:8] + [("delkey", "a"), ("pop",), ("clear",)])
     for st in (states[1:] if quick else states):
         for ops in itertools.product(mixed, repeat=2):
             R8.hd(st, ops)
@@ -529,10 +544,10 @@ def run(chk: Check) -> None:
         R8.hd(rng.choice(c08.HD_INITS), [c08.hd_random_op(rng) for _ in range(rng.randint(3, 30))])
     c08.FRESH[0] = False
     # the oracle of the refusal clause on single operations
-    for v in BADS:
+    for v in DIRTY:
         for st in states:
             for o in hygiene_ops(v):
-                if repr(v)[1:-1] not in repr(o):
+                if repr(v) not in repr(o):
                     continue
                 h = ds.Headers(None if st is None else c08.make_arg(st, ds))
                 before = list(h)
@@ -590,8 +605,13 @@ def run(chk: Check) -> None:
             lines.append(line)
             impl.append(obs)
     # Location (IRI, relative, autocorrect): judged by the oracle only
+    for loc in LOCATIONS:
+        for ac in (False, True):
+            for st in (302, 200):
+                serve_case(chk, rng, "str", st, "GET", None, False, 0, None, location=loc, autocorrect=ac)
+                chk.case(("location", loc, ac, st), nontrivial=True)
     for _ in range(600 if quick else 12000):
-        loc = rng.choice(["/x", "/a b", "http://example.com/a?b=c", "/é", "http://bücher.example/ü?ä=ö", "rel/path", "//host/p", "?q=1", "/%7Euser"])
+        loc = rng.choice(LOCATIONS)
         serve_case(chk, rng, rng.choice(["str", "list_bytes", "empty_list"]), rng.choice([301, 302, 201, 200, 304]), rng.choice(methods), None, False, 0, None,
                    location=loc, autocorrect=rng.random() < 0.5)
         chk.case(("location", loc, _), nontrivial=True)
